@@ -363,6 +363,12 @@ for mode, name in ((1, 'verbose'), (2, 'interface')):
             job(id='C.%s.logupd.c%d.d%d' % (M_LOG.name, c, d), entry='step_logger_update', key=[c, i, 0, d], props=['C16'], tier='quick' if (mode == 1 and d in (1, 4)) else 'thorough',
                 carriers=[r'R_<.*>::update'], case_key='%s/logger during update/cfg=%d/dest=%d' % (name, c, d), **base)
 
+# C16 on the orthogonal machine: several guards of one round (one per orthogonal prong) may each cancel - every cancellation must reach the logger
+M_LOGO = Machine('log_ortho', 'tier_c/m_ortho.cpp', [-1, 0, 1, 2, 2, 1, 5, 5, 0], ['C', 'O', 'C', 'L', 'L', 'C', 'L', 'L', 'L'], defs={'VM_LOGGER': 1}, unwind=14)
+for d in (1, 3, 7, 8):
+    job(id='C.log_ortho.logger.change.d%d' % d, tu=M_LOGO.tu, defs=M_LOGO.defs, entry='step_logger', key=[0, d], props=['C16', 'C01'], quick_for=['C16'], unwind=14, objbits=12, timeout=1200,
+        unwindset={'_ZL23check_log_mirrors_tracev.0': 202}, carriers=[r'GuardControlT<.*>::cancelPendingTransitions', r'S_<.*>::deepEntryGuard'], case_key='verbose/logger mirrors callbacks/orthogonal machine/change dest=%d' % d)
+
 M_UTILN = Machine('utiln', 'tier_c/m_util.cpp', [-1, 0, 0, 2, 3, 3, 2, 2, 7, 7, 9, 9], ['C', 'L', 'C', 'C', 'L', 'L', 'L', 'O', 'L', 'C', 'L', 'L'], defs={'VM_NESTED_UTIL': None}, unwind=26)
 for region, full, tier in ((2, 0, 'quick'), (3, 0, 'quick'), (9, 0, 'quick'), (2, 1, 'thorough')):
     job(id='C.utiln.utilize_nested.r%d%s' % (region, '.full' if full else ''), tu=M_UTILN.tu, defs=M_UTILN.defs, entry='step_utilize_nested', key=[region, full], props=['C12', 'C01', 'C02', 'C11'], unwind=26, objbits=12,
@@ -375,6 +381,9 @@ for _kind, _key in (('utilize', 0), ('change', 2)):
     job(id='C.utilr.%s_resumable_in_util.r2' % _kind, tu='tier_c/m_util.cpp', defs={'VM_RESUMABLE_IN_UTIL': None}, entry='step_utilize_nested', key=[2, _key], props=['C12', 'C01', 'C02', 'C11'], unwind=20, objbits=12, timeout=1500, mem_gb=24,
         cbmc_flags=['--slice-formula'], carriers=[r'C_<.*>::deepReportChangeResumable|C_<.*>::deepReportChange', r'C_<.*>::deepRequestChangeUtilitarian|C_<.*>::deepRequestUtilize'],
         case_key='resumable region (3 wide) as an option of a utilitarian region (2 wide)/%s region 2' % _kind)
+job(id='C.utilo.utilize_ortho_option.r2', tu='tier_c/m_util.cpp', defs={'VM_ORTHO_IN_UTIL': None}, entry='step_utilize_nested', key=[2, 0], props=['C12', 'C01', 'C02', 'C11'], unwind=24, objbits=12, timeout=1500, mem_gb=24,
+    cbmc_flags=['--slice-formula'], carriers=[r'OS_<.*>::wideReportUtilize', r'O_<.*>::deepReportUtilize', r'C_<.*>::deepRequestUtilize'],
+    case_key='orthogonal region (composite sub-region first, utilitarian last) as an option of a utilitarian region/utilize region 2')
 M_UTILH = Machine('utilh', 'tier_c/m_util.cpp', [-1, 0, 0, 2, 3, 3, 2], ['C', 'L', 'C', 'C', 'L', 'L', 'L'], defs={'VM_HEADLESS_UTIL': None}, unwind=18)
 job(id='C.utilh.utilize_headless.r2', tu=M_UTILH.tu, defs=M_UTILH.defs, entry='step_utilize_nested', key=[2, 1], props=['C12', 'C01', 'C02', 'C11'], tier='thorough', unwind=18, objbits=12, timeout=1500, mem_gb=24, cbmc_flags=['--slice-formula'],
     carriers=[r'C_<.*>::deepReportUtilize', r'S_<.*EmptyT.*>::wrapUtility|S_<.*>::wrapUtility', r'C_<.*>::deepRequestUtilize'], case_key='headless nested utility/utilize region 2 (anonymous head counts as 1)')
@@ -467,6 +476,7 @@ QUICK_TABLE = [
     (r'^C\.plan2\.',                     ['C06']),
     (r'^C\.utiln\.utilize_nested\.r2$',  ['C12', 'C01']),
     (r'^C\.utilr\.',                    ['C12', 'C01']),
+    (r'^C\.utilo\.',                    ['C12']),
     (r'^C\.util',                        ['C12']),
     (r'^C\.payload\.',                   ['C14']),
     (r'^C\.log_',                        ['C16']),
